@@ -62,6 +62,21 @@ func VerifC15Results() {
 	}
 }
 
+type verifSent struct {
+	kind   int
+	amount int64
+}
+
+// garbageBefore: did an invalid envelope precede message i (the connection may have been dropped)?
+func garbageBefore(msgs []verifSent, i int) bool {
+	for _, s := range msgs[:i] {
+		if s.kind == 4 {
+			return true
+		}
+	}
+	return false
+}
+
 // VerifC16Stream: a connection served by the real Remote/Server over the
 // stream codec receives a sequence of JSON values: complete calls, calls that
 // lack the method name, the parameters or one parameter, and well-formed JSON
@@ -79,10 +94,7 @@ func VerifC16Stream() {
 	in, out := verifapi.NewPipe(), verifapi.NewPipe()
 	r := &Remote{Codec: IOCodec(verifDuplex{in, out, out}), Client: &Client{}, Server: srv}
 	n := verifapi.Param("messages", 2)
-	type sent struct {
-		kind   int
-		amount int64
-	}
+	type sent = verifSent
 	var msgs []sent
 	for i := 0; i < n; i++ {
 		amount := verifapi.Int64(fmt.Sprint("amount", i))
@@ -90,8 +102,10 @@ func VerifC16Stream() {
 		full, _ := json.Marshal([]interface{}{"alice", amount})
 		one, _ := json.Marshal([]interface{}{"alice"})
 		msg := &Message{ID: id, Version: Version}
-		kind := verifapi.Choose(fmt.Sprint("kind", i), 5)
+		kind := verifapi.Choose(fmt.Sprint("kind", i), 6)
 		switch kind {
+		case 5: // a call that names the empty method (an unregistered name like any other)
+			msg.Request = &Request{Method: "", Params: full}
 		case 0, 4: // a complete call (4: inside an envelope with a wrongly typed member)
 			msg.Request = &Request{Method: "bank_transfer", Params: full}
 		case 1: // no method name (and so no request part at all): just id and version
@@ -141,6 +155,8 @@ func VerifC16Stream() {
 			if reply != nil {
 				verifapi.Assert(reply.Response != nil && reply.Response.Error != nil && reply.Response.Error.Code == ErrCodeMethodNotFound, "c16.stream.no-method-name-is-method-not-found")
 			}
+		case 5:
+			verifapi.Assert(garbageBefore(msgs, i) || (reply != nil && reply.Response != nil && reply.Response.Error != nil && reply.Response.Error.Code == ErrCodeMethodNotFound), "c16.stream.empty-name-is-method-not-found")
 		case 2, 3:
 			if reply != nil {
 				verifapi.Assert(reply.Response != nil && reply.Response.Error != nil && reply.Response.Error.Code == ErrCodeInvalidParams, "c16.stream.missing-params-is-invalid-params")
@@ -162,7 +178,7 @@ func VerifC16Stream() {
 	for _, s := range msgs {
 		garbage = garbage || s.kind == 4
 		if s.kind != 1 && s.kind != 4 {
-			requests++ // (a message without a method name is not a request)
+			requests++ // (a message without a request part is not a request)
 		}
 	}
 	if !garbage {
